@@ -1,8 +1,8 @@
 package props
 
 import (
-	"strings"
 	"fmt"
+	"strings"
 
 	"golang.org/x/tools/go/ssa"
 
@@ -54,7 +54,9 @@ func checkC20(c *Ctx) {
 	c.queueIndexRules()
 	c.growRules()
 	c.occupancyByCount()
-	lockBalance(c, func(cl string) bool { return cl == "service.service.wmu" || strings.HasPrefix(cl, "sessions.Ackqueue.") }, "write-mutex/ack-queue")
+	lockBalance(c, func(cl string) bool {
+		return cl == "service.service.wmu" || strings.HasPrefix(cl, "sessions.Ackqueue.")
+	}, "write-mutex/ack-queue")
 }
 
 func (c *Ctx) clientConnect(fn *ssa.Function) {
